@@ -6,7 +6,7 @@ returned exactly the rows committed when it pinned (computed from the schedule),
 import json, re
 from lib import core, runner, e4util
 
-TRANSPARENT = ["txn.start", "run.begin", "txn.commit", "txn.locked", "compactor.pass", "compactor.table", "commit.begin"]
+TRANSPARENT = ["txn.start", "run.begin", "txn.commit", "txn.locked", "compactor.pass", "compactor.table", "commit.begin", "commit.built"]
 INIT = {"t": [1, 2, 3], "u": [1, 2, 3]}
 
 
